@@ -206,7 +206,7 @@ def _norm_body(stmts: List[ast.stmt]) -> List[ast.stmt]:
 def _norm_block(stmts: List[ast.stmt]) -> List[ast.stmt]:
     out: List[ast.stmt] = []
     i = 0
-    stmts = list(stmts)
+    stmts = _loop_forms(list(stmts))
     while i < len(stmts):
         s = stmts[i]
         if isinstance(s, ast.If):
@@ -283,6 +283,85 @@ def _norm_block(stmts: List[ast.stmt]) -> List[ast.stmt]:
 
 def _names_loaded(node) -> Set[str]:
     return {n.id for n in ast.walk(node) if isinstance(n, ast.Name) and isinstance(n.ctx, ast.Load)}
+
+
+def _stores_in(stmts) -> Set[str]:
+    return {n.id for s in stmts for n in ast.walk(s) if isinstance(n, ast.Name) and isinstance(n.ctx, (ast.Store, ast.Del))}
+
+
+def _simple_bound(e) -> bool:
+    """an expression whose value a loop body cannot change without storing one of its names: constants, names, attribute paths, len(name/path),
+    and + - * // of those"""
+    if isinstance(e, ast.Constant):
+        return True
+    if path_of(e) is not None:
+        return True
+    if isinstance(e, ast.Call) and call_name(e) in ("len", "int") and len(e.args) == 1 and not e.keywords:
+        return _simple_bound(e.args[0])
+    if isinstance(e, ast.BinOp) and isinstance(e.op, (ast.Add, ast.Sub, ast.Mult, ast.FloorDiv)):
+        return _simple_bound(e.left) and _simple_bound(e.right)
+    return False
+
+
+def _loop_forms(stmts: List[ast.stmt]) -> List[ast.stmt]:
+    """two loop spellings brought to the form the rest of the code base uses:
+       i = a; while i < b: BODY; i += 1        ->  for i in range(a, b): BODY         (i not read afterwards, b not changed by BODY, no `continue`)
+       for k in X: if T: raise E               ->  if not all((not T) for k in X): raise E   (E does not mention k)"""
+    out: List[ast.stmt] = []
+    i = 0
+    while i < len(stmts):
+        s = stmts[i]
+        nxt = stmts[i + 1] if i + 1 < len(stmts) else None
+        if isinstance(s, ast.Assign) and len(s.targets) == 1 and isinstance(s.targets[0], ast.Name) and isinstance(nxt, ast.While) and not nxt.orelse \
+                and isinstance(nxt.test, ast.Compare) and len(nxt.test.ops) == 1 and isinstance(nxt.test.ops[0], ast.Lt) \
+                and isinstance(nxt.test.left, ast.Name) and nxt.test.left.id == s.targets[0].id and nxt.body:
+            v = s.targets[0].id
+            last = nxt.body[-1]
+            incr = (isinstance(last, ast.AugAssign) and isinstance(last.op, ast.Add) and path_of(last.target) == v and isinstance(last.value, ast.Constant) and last.value.value == 1) or \
+                   (isinstance(last, ast.Assign) and len(last.targets) == 1 and path_of(last.targets[0]) == v and isinstance(last.value, ast.BinOp)
+                    and isinstance(last.value.op, ast.Add) and {path_of(last.value.left), getattr(last.value.right, "value", None)} == {v, 1})
+            body = nxt.body[:-1]
+            bound = nxt.test.comparators[0]
+            rest = stmts[i + 2:]
+            ok = incr and body and v not in _stores_in(body) and not any(isinstance(x, ast.Continue) for b_ in body for x in ast.walk(b_)) \
+                and _simple_bound(bound) and _simple_bound(s.value) \
+                and not ({n.id for n in ast.walk(bound) if isinstance(n, ast.Name)} & _stores_in(body)) \
+                and not any(isinstance(n, ast.Name) and n.id == v and isinstance(n.ctx, ast.Load) for r_ in rest for n in ast.walk(r_))
+            if ok:
+                args = [bound] if (isinstance(s.value, ast.Constant) and s.value.value == 0) else [s.value, bound]
+                new = ast.For(target=ast.Name(id=v, ctx=ast.Store()), iter=ast.Call(func=ast.Name(id="range", ctx=ast.Load()), args=args, keywords=[]),
+                              body=body, orelse=[])
+                out.append(ast.fix_missing_locations(ast.copy_location(new, nxt)))
+                i += 2
+                continue
+        if isinstance(s, ast.For) and not s.orelse and len(s.body) == 1 and isinstance(s.body[0], ast.If) and not s.body[0].orelse \
+                and len(s.body[0].body) == 1 and isinstance(s.body[0].body[0], ast.Raise):
+            tg = {n.id for n in ast.walk(s.target) if isinstance(n, ast.Name)}
+            rz = s.body[0].body[0]
+            if not any(isinstance(n, ast.Name) and n.id in tg for n in ast.walk(rz)):
+                gen = ast.comprehension(target=s.target, iter=s.iter, ifs=[], is_async=0)
+                allc = ast.Call(func=ast.Name(id="all", ctx=ast.Load()), args=[ast.GeneratorExp(elt=nnf(_neg(s.body[0].test)), generators=[gen])], keywords=[])
+                new = ast.If(test=ast.UnaryOp(op=ast.Not(), operand=allc), body=[rz], orelse=[])
+                out.append(ast.fix_missing_locations(ast.copy_location(new, s)))
+                i += 1
+                continue
+        out.append(s)
+        i += 1
+    # for k in range(len(S)): e = S[k]; BODY   ->  for e in S: BODY     (k not used elsewhere in BODY, S not changed by BODY)
+    for j, s in enumerate(out):
+        if isinstance(s, ast.For) and not s.orelse and isinstance(s.target, ast.Name) and isinstance(s.iter, ast.Call) and call_name(s.iter) == "range" \
+                and len(s.iter.args) == 1 and isinstance(s.iter.args[0], ast.Call) and call_name(s.iter.args[0]) == "len" and len(s.iter.args[0].args) == 1 \
+                and path_of(s.iter.args[0].args[0]) is not None and len(s.body) >= 2:
+            k, S = s.target.id, s.iter.args[0].args[0]
+            f0 = s.body[0]
+            if isinstance(f0, ast.Assign) and len(f0.targets) == 1 and isinstance(f0.targets[0], ast.Name) and isinstance(f0.value, ast.Subscript) \
+                    and path_of(f0.value.value) == path_of(S) and path_of(f0.value.slice) == k:
+                rest = s.body[1:]
+                uses_k = any(isinstance(n, ast.Name) and n.id == k for r_ in rest for n in ast.walk(r_))
+                root = path_of(S).split(".")[0]
+                if not uses_k and root not in _stores_in(rest) and f0.targets[0].id not in _stores_in(rest):
+                    out[j] = ast.fix_missing_locations(ast.copy_location(ast.For(target=ast.Name(id=f0.targets[0].id, ctx=ast.Store()), iter=S, body=rest, orelse=[]), s))
+    return out
 
 
 def _accumulate_loops(stmts: List[ast.stmt]) -> List[ast.stmt]:
@@ -402,6 +481,16 @@ class _TupleConcat(ast.NodeTransformer):
         return n
 
 
+class _ReduceOverList(ast.NodeTransformer):
+    """all([e for ..]) / any([e for ..])  ->  all(e for ..) / any(e for ..)   (the list is only iterated)"""
+
+    def visit_Call(self, n):
+        self.generic_visit(n)
+        if isinstance(n.func, ast.Name) and n.func.id in ("all", "any") and len(n.args) == 1 and not n.keywords and isinstance(n.args[0], ast.ListComp):
+            n.args[0] = ast.copy_location(ast.GeneratorExp(elt=n.args[0].elt, generators=n.args[0].generators), n.args[0])
+        return n
+
+
 class _IdentityComp(ast.NodeTransformer):
     """{k: v for k, v in X} -> dict(X) ;  [a for a in X] -> list(X)   (comprehensions that only copy)"""
 
@@ -463,6 +552,7 @@ def alpha(f):
         f = _KwargKeys(kw).visit(f)
     f = _TupleConcat().visit(f)
     f = _IdentityComp().visit(f)
+    f = _ReduceOverList().visit(f)
     return _SymOrder().visit(f)
 
 
